@@ -1,4 +1,131 @@
-"""Further native operations, registered into native_worker.OPS by the check modules' helpers."""
+"""Native operations executed inside the sacrificial workers (vf.native_worker)."""
 from __future__ import annotations
 
-from .native_worker import OPS  # noqa: F401
+import json
+import sys
+
+from .common import use_repo
+
+use_repo()
+
+
+def _tensor(spec):
+    """{"fmt": {"modes","ordering"}, "dims": [...], "levels": [[]|[pos,crd]], "vals": [...]} -> Tensor (raw arrays)."""
+    from tensora import Tensor
+    from tensora.compile import taco_structure_to_cffi
+
+    modes = tuple(0 if m == "d" else 1 for m in spec["fmt"]["modes"])
+    cffi_t = taco_structure_to_cffi(
+        [list(map(list, lv)) for lv in spec["levels"]],
+        [float(v) for v in spec["vals"]],
+        mode_types=modes,
+        dimensions=tuple(spec["dims"]),
+        mode_ordering=tuple(spec["fmt"]["ordering"]),
+    )
+    return Tensor(cffi_t)
+
+
+def _raw(t):
+    return {"dims": list(t.dimensions), "levels": t.taco_indices, "vals": t.taco_vals,
+            "modes": [m.character for m in t.modes], "ordering": list(t.mode_ordering)}
+
+
+def op_eval_batch(task):
+    """Run one kernel (through tensor_method, the path evaluate uses) on many input sets."""
+    from tensora import tensor_method
+    from tensora.compile import BackendCompiler
+
+    from .kernels import set_capacity
+
+    set_capacity(task.get("cap"))
+    backend = BackendCompiler[task.get("backend", "llvm")]
+    try:
+        fn = tensor_method(task["text"], task["formats"], backend)
+    except Exception as e:  # noqa: BLE001
+        return {"compile_exc": type(e).__name__, "msg": str(e)[:300]}
+    outs = []
+    for inp in task["inputs"]:
+        sys.stdout.write("@@" + json.dumps({"id": task["id"], "progress": inp.get("cid")}) + "\n")
+        sys.stdout.flush()
+        try:
+            args = {name: _tensor(spec) for name, spec in inp["tensors"].items()}
+            out = fn(**args)
+            outs.append({"cid": inp.get("cid"), "out": _raw(out)})
+        except Exception as e:  # noqa: BLE001
+            outs.append({"cid": inp.get("cid"), "exc": type(e).__name__, "msg": str(e)[:300]})
+    return {"outs": outs}
+
+
+OPS = {"eval_batch": op_eval_batch}
+
+
+
+
+def _apply_map(tensor, m):
+    """Re-value an input tensor in place (same structure): the caller-side counterpart of KernelRun!Revalue."""
+    from tensora.compile import tensor_cdefs
+
+    n = len(tensor.taco_vals)
+    vals = tensor_cdefs.cast("double*", tensor.cffi_tensor.vals)
+    for i in range(n):
+        vals[i] = {"zero": 0.0, "triple": vals[i] * 3.0, "negate": -vals[i], "half": vals[i] * 0.5}[m]
+
+
+def op_history_batch(task):
+    """C04: assemble / compute / evaluate of ONE generated module, called in the history's order on real
+    taco_tensor_t structures (LLVM JIT of the module the CLI would print)."""
+    from tensora.compile import allocate_taco_structure, take_ownership_of_arrays, tensor_cdefs
+    from tensora.compile._compile_llvm import compile_module
+    from tensora import Tensor
+
+    from . import kernels
+
+    try:
+        problem = kernels.make_problem(task["text"], task["formats"])
+        module = kernels.generate_module(problem, ["assemble", "compute", "evaluate"], cap=task.get("cap"))
+        engine = compile_module(module)
+    except Exception as e:  # noqa: BLE001
+        return {"compile_exc": type(e).__name__, "msg": str(e)[:300]}
+    names = list(problem.formats.keys())
+    sig = f"int32_t (*)({', '.join(['void *'] * len(names))})"
+    fns = {k: tensor_cdefs.cast(sig, engine.get_function_address(k)) for k in ("assemble", "compute", "evaluate")}
+    out_name = problem.assignment.target.name
+    ofmt = problem.formats[out_name]
+    outs = []
+    import json
+    import sys
+
+    for inp in task["inputs"]:
+        sys.stdout.write("@@" + json.dumps({"id": task["id"], "progress": inp.get("cid")}) + "\n")
+        sys.stdout.flush()
+        ins = {name: _tensor(spec) for name, spec in inp["tensors"].items()}
+
+        def fresh():
+            return Tensor(allocate_taco_structure(tuple(m.c_int for m in ofmt.modes), tuple(inp["out_dims"]),
+                                                  ofmt.ordering))
+
+        def call(kind, out):
+            allt = {out_name: out, **ins}
+            return fns[kind](*[allt[n].cffi_tensor for n in names])
+
+        rec = {"cid": inp.get("cid"), "rc": []}
+        o1 = fresh()
+        rec["rc"].append(call("evaluate", o1))
+        take_ownership_of_arrays(o1.cffi_tensor)
+        rec["evaluate"] = _raw(o1)
+        o2 = fresh()
+        rec["rc"].append(call("assemble", o2))
+        rec["assemble"] = {"levels": o2.taco_indices}
+        rec["rc"].append(call("compute", o2))
+        rec["compute"] = [_raw(o2)]
+        for m in inp.get("maps", []):
+            for t in ins.values():
+                _apply_map(t, m)
+            rec["rc"].append(call("compute", o2))
+            rec["compute"].append(_raw(o2))
+        take_ownership_of_arrays(o2.cffi_tensor)
+        outs.append(rec)
+    return {"outs": outs}
+
+
+OPS["history_batch"] = op_history_batch
